@@ -82,6 +82,10 @@ def sort_of_dtype(dtype, data=False):
         return "bool"
     if data:
         return "elem"
+    if _np.issubdtype(dtype, _np.unsignedinteger):
+        c = cur_opt()
+        if c is not None and c.ghost.get("unsigned_as_bv"):
+            return "bv"                 # bit-pattern arrays (XOR tricks): 64-bit words
     if _np.issubdtype(dtype, _np.integer):
         return "int"
     return "elem"
